@@ -12,8 +12,11 @@ helper call as `key=value` tokens (vectors `a,b,c`; lists of vectors `v;w`; `-` 
       (clip = the clipping was reported by a warning; kok = top_i/(K_i·bottom_i) agree over the equilibrium chemicals;
        bot0 is accepted and ignored: the repaired partition does not read it)
   bpf zs=v ks=v za= zb= solver=                              -> bpf path= phi=
-  lle n= feed=v L=v l=v tc=0|1 rhol=x|none rhoL=x|none eff=  -> lle top=v bot=v hyp=0|1
-  vle n= feed=v g=v l=v                                      -> vle vap=v liq=v hyp=0|1
+  lle n= feed=v L=v l=v tc=0|1 rhol=x|none rhoL=x|none eff= h0L=v h0l=v ldL=v ldl=v -> lle top=v bot=v hyp=0|1 load=0|1
+  vle n= feed=v g=v l=v h0g=v h0l=v ldg=v ldl=v              -> vle vap=v liq=v hyp=0|1 load=0|1
+      (h0* = rows of the multi_stream holder before the call (`-` = no holder / empty); ld* = rows observed on entry of
+       the equilibrium routine; load = they are exactly the feed in `l` and nothing elsewhere;
+       hyp = the rows left by the equilibrium sum to the feed)
   ps  n= phases=g,l rows=v;w nout=                           -> ps outs=g:v;l:w | ps err=runtime
   cs  n= a=v b=v|- mixed=v|-                                 -> cs split=v
   mb  n= idx=l vin=v;w cin=v;w|- cout=v;w                    -> mb vin=v;w res=0 | mb err=…
@@ -153,7 +156,14 @@ def run (op : String) (kv : KV) : Option String :=
     let e ← parseRat? (← kv.get "eff")
     let (t, b) := lleWrap n feed rL rl tc rhol rhoL e
     let hyp := nearVec n (tab n (fun i => rL.at i + rl.at i)) feed
-    some s!"lle top={showVec t} bot={showVec b} hyp={showB hyp}"
+    -- holder: previous rows (ignored by the model) and the rows observed when the equilibrium routine was entered
+    let h0L ← parseVec ((kv.get "h0L").getD "-")
+    let h0l ← parseVec ((kv.get "h0l").getD "-")
+    let ldL ← parseVec (← kv.get "ldL")
+    let ldl ← parseVec (← kv.get "ldl")
+    let ld := holderLoad n (h0L, h0l) feed
+    let load := decide (tab n ldL.at = ld.1) && decide (tab n ldl.at = ld.2)
+    some s!"lle top={showVec t} bot={showVec b} hyp={showB hyp} load={showB load}"
   | "vle" => do
     let n ← (← kv.get "n").toNat?
     let feed ← parseVec (← kv.get "feed")
@@ -161,7 +171,13 @@ def run (op : String) (kv : KV) : Option String :=
     let l ← parseVec (← kv.get "l")
     let (v, q) := vleWrap n g l
     let hyp := nearVec n (tab n (fun i => g.at i + l.at i)) feed
-    some s!"vle vap={showVec v} liq={showVec q} hyp={showB hyp}"
+    let h0g ← parseVec ((kv.get "h0g").getD "-")
+    let h0l ← parseVec ((kv.get "h0l").getD "-")
+    let ldg ← parseVec (← kv.get "ldg")
+    let ldl ← parseVec (← kv.get "ldl")
+    let ld := holderLoad n (h0g, h0l) feed
+    let load := decide (tab n ldg.at = ld.1) && decide (tab n ldl.at = ld.2)
+    some s!"vle vap={showVec v} liq={showVec q} hyp={showB hyp} load={showB load}"
   | "ps" => do
     let n ← (← kv.get "n").toNat?
     let phases := splitComma (← kv.get "phases")
